@@ -2,99 +2,161 @@ import Ibx.Gen.Lua
 import Ibx.Model.LuaGlue
 import Ibx.Model.Pool
 /-
-  T1 tie for C17 (Lua half): the facts regenerated from pkg/extension/luahost/{lua.go,pool.go,bind_*.go} and
-  pkg/extension/broker.go on every run are exactly what Ibx/Model/LuaGlue.lean and Ibx/Model/Pool.lean assume.
+  T1 tie for C17 (Lua half): the facts regenerated from pkg/extension/luahost/*.go and pkg/extension/broker.go on every
+  run are exactly what Ibx/Model/LuaGlue.lean and Ibx/Model/Pool.lean assume.
   If the source changes one of them these obligations stop checking and the models have to be re-read.
+
+  The facts are STRUCTURAL (see the head of harness/cmd/extract/lua.go): every function is given as the set of its
+  control-flow paths after inlining the package's own helpers, with local variables replaced by their definitions.
+  Renaming locals / receivers / unexported helpers and fields, extracting or inlining helpers, if-else <-> switch <->
+  early return, rewording log / error texts and moving code between files do not change them.  Notation of a path:
+    S                     the *lua.LState handed out by the pool's `get` (S.err = the error that came with it)
+    get() put(x) new()    the pool's methods, recognised by what they do with the []*lua.LState free list (`<free>`)
+    fn->T(args)           a helper of the package that is not inlined, named by its result types: fn->*Inbucket = getInbucket,
+                          fn->*event.SMTPResponse / fn->*event.InboundMessage = the unwrap functions (tied below),
+                          fn->*gopher-lua.LUserData = a wrap* constructor
+    $recv $0 $1           receiver / parameters;   <T> = the receiver's unexported field of type T
 -/
 namespace Ibx.Tie.Lua
 open Ibx Ibx.Gen.Lua
 
-/-- the five Lua functions, the events they are wired to and the Go listeners (wireFunctions) -/
-theorem wired_tie : wired =
-    [("ib.After.MessageDeleted", "AfterMessageDeleted", "handleAfterMessageDeleted"),
-     ("ib.After.MessageStored", "AfterMessageStored", "handleAfterMessageStored"),
-     ("ib.Before.MailFromAccepted", "BeforeMailFromAccepted", "handleBeforeMailFromAccepted"),
-     ("ib.Before.MessageStored", "BeforeMessageStored", "handleBeforeMessageStored"),
-     ("ib.Before.RcptToAccepted", "BeforeRcptToAccepted", "handleBeforeRcptToAccepted")] := rfl
+/-- the five Lua functions, the events they are wired to and the slot the registered Go listener calls (wireFunctions) -/
+theorem wired_tie : listeners.map (fun l => (l.slot, l.event, l.fn)) =
+    [("After.MessageDeleted", "AfterMessageDeleted", "After.MessageDeleted"),
+     ("After.MessageStored", "AfterMessageStored", "After.MessageStored"),
+     ("Before.MailFromAccepted", "BeforeMailFromAccepted", "Before.MailFromAccepted"),
+     ("Before.MessageStored", "BeforeMessageStored", "Before.MessageStored"),
+     ("Before.RcptToAccepted", "BeforeRcptToAccepted", "Before.RcptToAccepted")] := by decide +kernel
 
 /-- the Lua spellings (`inbucket.before.mail_from_accepted`, …) and the slots they assign -/
 theorem luaNames_tie : luaNames =
-    [("before.mail_from_accepted", "ib.Before.MailFromAccepted"), ("before.message_stored", "ib.Before.MessageStored"),
-     ("before.rcpt_to_accepted", "ib.Before.RcptToAccepted"), ("after.message_deleted", "ib.After.MessageDeleted"),
-     ("after.message_stored", "ib.After.MessageStored")] := rfl
+    [("after.message_deleted", "After.MessageDeleted"), ("after.message_stored", "After.MessageStored"),
+     ("before.mail_from_accepted", "Before.MailFromAccepted"), ("before.message_stored", "Before.MessageStored"),
+     ("before.rcpt_to_accepted", "Before.RcptToAccepted")] := by decide +kernel
 
-theorem inbucketIndex_tie : inbucketIndex =
-    ["\"after\" => ls.Push(wrapInbucketAfter(ls, &ib.After))", "\"before\" => ls.Push(wrapInbucketBefore(ls, &ib.Before))"] := rfl
+theorem inbucketIndex_tie : inbucketIndex = [("after", "After"), ("before", "Before")] := by decide +kernel
 
-/-- a listener is wired to the slot it calls, and logs / prepares under the Lua name that assigns that slot -/
-def consistent (w : String × String × String) : Bool :=
-  match handlers.find? (fun h => h.goName == w.2.2) with
-  | some h => h.fn == w.1 && luaNames.contains (h.luaName, w.1)
-  | none => false
+/-- a listener is registered under the guard of the slot it calls, and some Lua name assigns that slot -/
+def consistent (l : Listener) : Bool :=
+  l.fn == l.slot && (luaNames.map (·.2)).contains l.slot
 
-theorem wiring_consistent : wired.all consistent = true := by decide
+theorem wiring_consistent : listeners.all consistent = true := by decide +kernel
 
-/-- EVERY listener: obtains its state through prepareInbucketFuncCall only, leaves when that failed, defers putState
-    right after, and calls Lua protected — so a Lua error (or a Go panic inside a binding) cannot unwind the session -/
+/-- EVERY listener: takes exactly one state from the pool, defers putState before the first use of the state, and enters
+    Lua only through a protected CallByParam — so a Lua error (or a Go panic inside a binding) cannot unwind the session;
+    and there is no other Lua entry point in the package -/
 theorem every_call_protected :
-    (∀ h ∈ handlers, h.protect = true ∧ h.notOkReturns = true ∧ h.deferPut = true ∧ h.gets = 0 ∧ h.puts = 1) ∧
-    unprotectedCalls = [] ∧ handlers.length = 5 := by decide
+    (∀ l ∈ listeners, l.protect = true ∧ l.deferPut = true ∧ l.gets = 1 ∧ l.puts = 1) ∧
+    unprotectedCalls = [] ∧ listeners.length = 5 ∧ callByParamSites = 5 := by decide +kernel
+
+/-- the paths on which a listener gives up before calling Lua (prepareInbucketFuncCall): the pool has no state, or the
+    state has no `inbucket` object — then the state is dropped WITHOUT putState (Pool.Op.leak).  Same for all five. -/
+theorem acquire_tie :
+    ∀ l ∈ listeners, (l.paths.filter (fun p => !p.effects.contains "defer put(S)")).map (fun p => (p.conds, p.effects)) =
+      [(["(S.err != nil)"], ["get()"]),
+       (["(S.err == nil)", "(fn->*Inbucket(S).err != nil)"], ["get()", "fn->*Inbucket(S)"])] := by decide +kernel
+
+/-- the Lua call of the listener for `slot` asking for `nret` results -/
+def luaCall (slot nret : String) : String :=
+  "S.CallByParam(gopher-lua.P{Fn: fn->*Inbucket(S)." ++ slot ++ ", NRet: " ++ nret ++ ", Protect: true}, fn->*gopher-lua.LUserData(S, &$0))"
+
+def acquired : List String := ["(S.err == nil)", "(fn->*Inbucket(S).err == nil)"]
+
+/-- handleBeforeMailFromAccepted / handleBeforeRcptToAccepted as LuaGlue.glueSmtp models them -/
+def smtpListenerPaths (slot : String) : List Path :=
+  [{ conds := "(S.CallByParam(..) != nil)" :: acquired,
+     effects := ["get()", "fn->*Inbucket(S)", "defer put(S)", luaCall slot "1"], ret := "nil" },
+   { conds := "(S.CallByParam(..) == nil)" :: acquired,
+     effects := ["get()", "fn->*Inbucket(S)", "defer put(S)", luaCall slot "1", "S.Get(-1)", "S.Pop(1)", "fn->*event.SMTPResponse(S.Get(-1))"],
+     ret := "fn->*event.SMTPResponse(S.Get(-1))" },
+   { conds := ["(S.err != nil)"], effects := ["get()"], ret := "nil" },
+   { conds := ["(S.err == nil)", "(fn->*Inbucket(S).err != nil)"], effects := ["get()", "fn->*Inbucket(S)"], ret := "nil" }]
 
 /-- the three before-listeners have the shape LuaGlue.glueSmtp / glueStored model:
-    NRet 1; error => return nil; value := top of stack, popped; [stored: LVIsFalse => nil]; result := unwrap(value); return result -/
+    no state => nil; NRet 1; error => nil; value := top of stack, popped; [stored: LVIsFalse => nil]; return unwrap(value) -/
 theorem before_handlers_tie :
-    handlers.filter (fun h => h.nret == some 1) =
-    [{ goName := "handleBeforeMailFromAccepted", luaName := "before.mail_from_accepted", notOkReturns := true, deferPut := true,
-       fn := "ib.Before.MailFromAccepted", nret := some 1, protect := true, errReturnsNil := true, getTopPop := true,
-       lvIsFalse := false, unwrap := "unwrapSMTPResponse", returnsResult := true, gets := 0, puts := 1 },
-     { goName := "handleBeforeRcptToAccepted", luaName := "before.rcpt_to_accepted", notOkReturns := true, deferPut := true,
-       fn := "ib.Before.RcptToAccepted", nret := some 1, protect := true, errReturnsNil := true, getTopPop := true,
-       lvIsFalse := false, unwrap := "unwrapSMTPResponse", returnsResult := true, gets := 0, puts := 1 },
-     { goName := "handleBeforeMessageStored", luaName := "before.message_stored", notOkReturns := true, deferPut := true,
-       fn := "ib.Before.MessageStored", nret := some 1, protect := true, errReturnsNil := true, getTopPop := true,
-       lvIsFalse := true, unwrap := "unwrapInboundMessage", returnsResult := true, gets := 0, puts := 1 }] := by decide
+    (listeners.filter (fun l => l.nret == some 1)).map (fun l => (l.slot, l.paths)) =
+    [("Before.MailFromAccepted", smtpListenerPaths "Before.MailFromAccepted"),
+     ("Before.MessageStored",
+      [{ conds := "!gopher-lua.LVIsFalse(S.Get(-1))" :: "(S.CallByParam(..) == nil)" :: acquired,
+         effects := ["get()", "fn->*Inbucket(S)", "defer put(S)", luaCall "Before.MessageStored" "1", "S.Get(-1)", "S.Pop(1)", "fn->*event.InboundMessage(S.Get(-1))"],
+         ret := "fn->*event.InboundMessage(S.Get(-1))" },
+       { conds := "(S.CallByParam(..) != nil)" :: acquired,
+         effects := ["get()", "fn->*Inbucket(S)", "defer put(S)", luaCall "Before.MessageStored" "1"], ret := "nil" },
+       { conds := ["(S.CallByParam(..) == nil)", "(S.err == nil)", "(fn->*Inbucket(S).err == nil)", "gopher-lua.LVIsFalse(S.Get(-1))"],
+         effects := ["get()", "fn->*Inbucket(S)", "defer put(S)", luaCall "Before.MessageStored" "1", "S.Get(-1)", "S.Pop(1)"], ret := "nil" },
+       { conds := ["(S.err != nil)"], effects := ["get()"], ret := "nil" },
+       { conds := ["(S.err == nil)", "(fn->*Inbucket(S).err != nil)"], effects := ["get()", "fn->*Inbucket(S)"], ret := "nil" }]),
+     ("Before.RcptToAccepted", smtpListenerPaths "Before.RcptToAccepted")] := by decide +kernel
 
-/-- the two after-listeners ask for no result and return nothing: they cannot answer -/
+/-- the two after-listeners ask for no result and return nothing on every path: they cannot answer -/
 theorem after_handlers_tie :
-    (handlers.filter (fun h => h.nret != some 1)).map (fun h => (h.goName, h.nret, h.unwrap, h.returnsResult)) =
-    [("handleAfterMessageDeleted", some 0, "", false), ("handleAfterMessageStored", some 0, "", false)] := by decide
+    (listeners.filter (fun l => l.nret != some 1)).map (fun l => (l.slot, l.nret, l.paths)) =
+    [("After.MessageDeleted", some 0,
+      [{ conds := ["(S.err != nil)"], effects := ["get()"], ret := "-" },
+       { conds := ["(S.err == nil)", "(fn->*Inbucket(S).err != nil)"], effects := ["get()", "fn->*Inbucket(S)"], ret := "-" },
+       { conds := acquired, effects := ["get()", "fn->*Inbucket(S)", "defer put(S)", luaCall "After.MessageDeleted" "0"], ret := "-" }]),
+     ("After.MessageStored", some 0,
+      [{ conds := ["(S.err != nil)"], effects := ["get()"], ret := "-" },
+       { conds := ["(S.err == nil)", "(fn->*Inbucket(S).err != nil)"], effects := ["get()", "fn->*Inbucket(S)"], ret := "-" },
+       { conds := acquired, effects := ["get()", "fn->*Inbucket(S)", "defer put(S)", luaCall "After.MessageStored" "0"], ret := "-" }])] := by decide +kernel
 
-/-- unwrap*: `(v, nil)` only after both type assertions, otherwise `(nil, error)`  (LuaGlue.unwrapSMTPResponse / unwrapInboundMessage) -/
+/-- unwrap to *event.`t`: `(v, nil)` exactly when the value is a userdata whose Value is a *event.`t`, otherwise `(nil, error)` -/
+def unwrapPaths (t : String) : List Path :=
+  [{ conds := ["!is($0, *gopher-lua.LUserData)"], effects := [], ret := "nil, <error>" },
+   { conds := ["!is($0.(*gopher-lua.LUserData).Value, " ++ t ++ ")", "is($0, *gopher-lua.LUserData)"], effects := [], ret := "nil, <error>" },
+   { conds := ["is($0, *gopher-lua.LUserData)", "is($0.(*gopher-lua.LUserData).Value, " ++ t ++ ")"], effects := [],
+     ret := "$0.(*gopher-lua.LUserData).Value.(" ++ t ++ "), nil" }]
+
+/-- the unwrap functions (LuaGlue.unwrapSMTPResponse / unwrapInboundMessage); there are exactly these two -/
 theorem unwrap_tie :
-    unwrapResponse = (["*lua.LUserData", "*event.SMTPResponse"], "return nil, fmt.Errorf(...)") ∧
-    unwrapInbound = (["*lua.LUserData", "*event.InboundMessage"], "return nil, fmt.Errorf(...)") := ⟨rfl, rfl⟩
+    unwraps = [("*event.InboundMessage", unwrapPaths "*event.InboundMessage"),
+               ("*event.SMTPResponse", unwrapPaths "*event.SMTPResponse")] := by decide +kernel
 
-/-- smtp.deny() defaults (LuaGlue.defaultDenyCode / defaultDenyMsg) -/
+/-- smtp.allow / defer / deny: a FRESH response per call carrying the action; code and message are set only for deny, from
+    the optional arguments 1 and 2 with the defaults of LuaGlue.defaultDenyCode / defaultDenyMsg -/
 theorem deny_defaults_tie :
-    denyDefaults = ["val.ErrorCode = ls.OptInt(1, 550)", "val.ErrorMsg = ls.OptString(2, \"Mail denied by policy\")"] ∧
-    Model.LuaGlue.defaultDenyCode = 550 ∧ Model.LuaGlue.defaultDenyMsg = Bytes.ofString "Mail denied by policy" := ⟨rfl, rfl, rfl⟩
+    smtpCtor =
+      [{ conds := ["($o0 != event.ActionDeny)"],
+         effects := ["$0.Push(fn->*gopher-lua.LUserData($0, &event.SMTPResponse{Action: $o0}))"], ret := "1" },
+       { conds := ["($o0 == event.ActionDeny)"],
+         effects := ["$0.OptInt(1, 550)", "&event.SMTPResponse{Action: $o0}.ErrorCode := $0.OptInt(1, 550)",
+                     "$0.OptString(2, \"Mail denied by policy\")", "&event.SMTPResponse{Action: $o0}.ErrorMsg := $0.OptString(2, \"Mail denied by policy\")",
+                     "$0.Push(fn->*gopher-lua.LUserData($0, &event.SMTPResponse{Action: $o0}))"], ret := "1" }] ∧
+    denyCode = some Model.LuaGlue.defaultDenyCode ∧
+    denyMsg = some "Mail denied by policy" ∧ Model.LuaGlue.defaultDenyMsg = Bytes.ofString "Mail denied by policy" :=
+  ⟨by decide +kernel, by decide +kernel, by decide +kernel, rfl⟩
 
-/-- prepareInbucketFuncCall: getState, then getInbucket; on the second failure the state is dropped (Pool.Op.leak) -/
-theorem prepare_tie : prepare =
-    ["logger = h.logContext.Logger().With().Str(\"event\", funcName).Logger()",
-     "ls, err := h.pool.getState()",
-     "if err != nil { logger.Error().Err(err).Msg(\"Failed to get Lua state instance from pool\") return logger, nil, nil, false }",
-     "ib, err = getInbucket(ls)",
-     "if err != nil { logger.Error().Err(err).Msg(\"Failed to obtain Lua inbucket object\") return logger, nil, nil, false }",
-     "return logger, ls, ib, true"] := rfl
-
-/-- EventBroker.Emit (LuaGlue.emit) -/
+/-- EventBroker.Emit (LuaGlue.emit): under the read lock, the listeners in order, each on a copy of the event, until one
+    answers non-nil; otherwise nil -/
 theorem emit_tie : emit =
-    ["eb.RLock()", "defer eb.RUnlock()",
-     "for _, l := range eb.listenerFuncs { if result := l(*event); result != nil { return result } }",
-     "return nil"] := rfl
+    [{ conds := [],
+       effects := ["$recv.RLock()", "defer $recv.RUnlock()",
+                   "loop $recv.<[]func> { [(each($recv.<[]func>)(*$0) != nil)] |- [each($recv.<[]func>)(*$0)] => return each($recv.<[]func>)(*$0) | [(each($recv.<[]func>)(*$0) == nil)] |- [each($recv.<[]func>)(*$0)] => next }"],
+       ret := "nil" }] := by decide +kernel
 
-/-- pool.go: the critical sections and the unlocked prefix of putState are the atomic steps of Model.Pool
-    (get = whole getState; putClosed / putClear = the two unlocked statements of putState; putAppend = its locked rest;
-    flush = createChannel) and nothing else touches the free list -/
+/-- the pool: the critical sections and the unlocked prefix of putState are the atomic steps of Model.Pool
+    (get = whole getState: empty => a new state, else the LAST element is removed and returned;
+    putClosed / putClear = the two unlocked steps of putState; putAppend = its locked rest; flush = createChannel)
+    and nothing else touches the free list -/
 theorem pool_tie :
-    getState = ["lp.Lock()", "defer lp.Unlock()", "ln := len(lp.states)", "if ln == 0 { return lp.newState() }",
-                "state := lp.states[ln-1]", "lp.states = lp.states[0 : ln-1]", "return state, nil"] ∧
-    putState = ["if state.IsClosed() { return }", "state.Pop(state.GetTop())", "lp.Lock()", "defer lp.Unlock()",
-                "lp.states = append(lp.states, state)"] ∧
-    createChannel = ["lp.Lock()", "defer lp.Unlock()", "ch := make(chan lua.LValue, 10)", "lp.channels[name] = ch",
-                     "for _, s := range lp.states { s.Close() }", "lp.states = lp.states[:0]", "return ch"] ∧
+    poolGet =
+      [{ conds := ["(len($recv.<free>) != 0)"],
+         effects := ["$recv.Lock()", "defer $recv.Unlock()", "$recv.<free> := $recv.<free>[:(len($recv.<free>) - 1)]"],
+         ret := "$recv.<free>[(len($recv.<free>) - 1)], nil" },
+       { conds := ["(len($recv.<free>) == 0)"], effects := ["$recv.Lock()", "defer $recv.Unlock()", "new()"], ret := "N, N.err" }] ∧
+    poolPut =
+      [{ conds := ["!$0.IsClosed()"],
+         effects := ["$0.IsClosed()", "$0.GetTop()", "$0.Pop($0.GetTop())", "$recv.Lock()", "defer $recv.Unlock()",
+                     "$recv.<free> := append($recv.<free>, $0)"], ret := "-" },
+       { conds := ["$0.IsClosed()"], effects := ["$0.IsClosed()"], ret := "-" }] ∧
+    poolFlush =
+      [{ conds := [],
+         effects := ["$recv.Lock()", "defer $recv.Unlock()",
+                     "$recv.<map[string]chan gopher-lua.LValue>[$0] := make(chan gopher-lua.LValue, 10)",
+                     "loop $recv.<free> { [] |- [each($recv.<free>).Close()] => next }", "$recv.<free> := $recv.<free>[:0]"],
+         ret := "make(chan gopher-lua.LValue, 10)" }] ∧
     otherStatesUsers = [] ∧
-    poolSitesOutsideHandlers = [("NewFromReader", 1, 1), ("prepareInbucketFuncCall", 1, 0)] := ⟨rfl, rfl, rfl, rfl, rfl⟩
+    poolSitesOutsideListeners = [("NewFromReader", 1, 1)] := by decide +kernel
 
 end Ibx.Tie.Lua
